@@ -831,6 +831,30 @@ def Store.alloc (s : Store) (e : EntId) (pk : Option Nat) : Store :=
   | some p => { s1 with pkIdx := set2 s.pkIdx e p (some s.n), seen := .pk e p :: s.seen }
   | none => s1
 
+/-- one attribute of the constructor's loop `for attr, val in avdict.items()` -/
+def createStep (sch : Schema) (fuel : Nat) (id : ObjId) (v : AttrId → Option Nat) (items : AttrId → List ObjId) (a : AttrId) (st : St) : Res :=
+  match sch.decl a with
+  | some d =>
+    if d.kind = .coll then setColl sch (fun x => delete sch fuel x) true id a (items a) st   -- attr.__set__(obj, val, undo_funcs)
+    else
+      -- obj._vals_[attr] = val  (no undo);  if attr.reverse: attr.update_reverse(obj, None, val, undo_funcs)
+      let st := st.setStore (st.store.upd id fun r => { r with val := set1 r.val a (v a) })
+      if d.kind = .ref then
+        match sch.decl d.rev with
+        | some rd => updateReverse sch fuel d rd id a none (v a) st
+        | none => .err .noSuchAttr st
+      else .ok st
+  | none => .ok st
+
+/-- `for key, vals in indexes_update.items(): cache_indexes[key][vals] = obj` -/
+def registerKeys (sch : Schema) (id : ObjId) (v : AttrId → Option Nat) (simple : List AttrId) (comps : List KeyId) (s : Store) : Store :=
+  let s := simple.foldl (fun s a => match v a with
+    | some x => { s with idx := set2 s.idx a x (some id), seen := .simple a x :: s.seen }
+    | none => s) s
+  comps.foldl (fun s k => match tuple ((sch.keyAttrs k).map v) with
+    | some vs => { s with cidx := setK s.cidx k vs (some id), seen := .comp k vs :: s.seen }
+    | none => s) s
+
 /-- `cache_index.get(pkval)` of `_get_from_identity_map_` finds an object -/
 def pkTaken (s : Store) (e : EntId) : Option Nat → Bool
   | some p => (s.pkIdx e p).isSome
@@ -857,28 +881,9 @@ def create (sch : Schema) (fuel : Nat) (e : EntId) (pk : Option Nat) (vals : Lis
   if pkTaken s e pk then .err .cacheIndexError st else
   let id := s.n
   let st1 := (st.setStore (s.alloc e pk)).log (.created id e pk)
-  let body := iter (fun (a : AttrId) (st : St) =>
-    match sch.decl a with
-    | some d =>
-      if d.kind = .coll then setColl sch (fun x => delete sch fuel x) true id a (argItems (argOf a)) st   -- attr.__set__(obj, val, undo_funcs)
-      else
-        -- obj._vals_[attr] = val  (no undo);  if attr.reverse: attr.update_reverse(obj, None, val, undo_funcs)
-        let st := st.setStore (st.store.upd id fun r => { r with val := set1 r.val a (v a) })
-        if d.kind = .ref then
-          match sch.decl d.rev with
-          | some rd => updateReverse sch fuel d rd id a none (v a) st
-          | none => .err .noSuchAttr st
-        else .ok st
-    | none => .ok st) attrs st1
+  let body := iter (createStep sch fuel id v (fun a => argItems (argOf a))) attrs st1
   body.bind fun st =>
-    let s := st.store
-    -- for key, vals in indexes_update.items(): cache_indexes[key][vals] = obj
-    let s := simple.foldl (fun s a => match v a with
-      | some x => { s with idx := set2 s.idx a x (some id), seen := .simple a x :: s.seen }
-      | none => s) s
-    let s := comps.foldl (fun s k => match tuple ((sch.keyAttrs k).map v) with
-      | some vs => { s with cidx := setK s.cidx k vs (some id), seen := .comp k vs :: s.seen }
-      | none => s) s
+    let s := registerKeys sch id v simple comps st.store
     let s := s.upd id fun r => { r with savePos := some s.toSave.length }
     .ok (st.setStore { s with toSave := s.toSave ++ [some id], modified := true })
 
